@@ -65,6 +65,59 @@ theorem C04_single_mod (v : View) (c0 : Char) (rest val : List Char) (e : Char)
   simp only [bindO, Bool.and_true, Bool.true_and]
 
 open Gly.React in
+/-- **Modifications at different positions compose independently of the order in which they are written**: for any residue
+    view, two plain positional tokens at different positions (groups with a non-empty fragment) give the same `side_chains`,
+    the same postponed list and the same `full` flag in either order. -/
+theorem C04_commute (v : View) (c1 c2 : Char) (r1 r2 v1 v2 : List Char) (e1 e2 : Char)
+    (hs1 : plainSide c1 r1 = true) (hs2 : plainSide c2 r2 = true)
+    (hp1 : c1.toNat - '0'.toNat ≤ v.ncarbon) (hp2 : c2.toNat - '0'.toNat ≤ v.ncarbon)
+    (he1 : v.elemAt.getD (c1.toNat - '0'.toNat) none = some e1) (he2 : v.elemAt.getD (c2.toNat - '0'.toNat) none = some e2)
+    (hv1 : fgLookup r1 = some v1) (hv2 : fgLookup r2 = some v2) (hn1 : v1 ≠ []) (hn2 : v2 ≠ [])
+    (hne : c1.toNat - '0'.toNat ≠ c2.toNat - '0'.toNat) :
+    reactRound v [c1 :: r1, c2 :: r2] = reactRound v [c2 :: r2, c1 :: r1] := by
+  have hlen : (initChains v).length = 1 + v.ncarbon := by simp [initChains]
+  -- generic: one plain token on a state whose chains have the initial length
+  have one : ∀ (st : RState) (c : Char) (r val : List Char) (e : Char), st.chains.length = 1 + v.ncarbon →
+      plainSide c r = true → c.toNat - '0'.toNat ≤ v.ncarbon → v.elemAt.getD (c.toNat - '0'.toNat) none = some e →
+      fgLookup r = some val → val ≠ [] →
+      ∃ f, reactToken v st (c :: r) = .ok { st with chains := setCell st.chains (c.toNat - '0'.toNat) (if e == 'C' then 1 else 0) f } ∧
+           ∀ (st' : RState), st'.chains.length = 1 + v.ncarbon →
+             getCell st'.chains (c.toNat - '0'.toNat) (if e == 'C' then 1 else 0) = getCell st.chains (c.toNat - '0'.toNat) (if e == 'C' then 1 else 0) →
+             reactToken v st' (c :: r) = .ok { st' with chains := setCell st'.chains (c.toNat - '0'.toNat) (if e == 'C' then 1 else 0) f } := by
+    intro st c r val e hl hs hp he hv hn
+    have key : ∀ (s : RState), s.chains.length = 1 + v.ncarbon →
+        reactToken v s (c :: r) = bindO (setFg s.chains (if e == 'C' then 1 else 0) (c.toNat - '0'.toNat)
+          (if (if Gen.preserveElem.contains r then [e] else []) == ['C'] then [] else (if Gen.preserveElem.contains r then [e] else [])) r)
+          (fun (cs, ok) => .ok { s with chains := cs, full := s.full && ok }) := by
+      intro s hsl
+      exact reactToken_plain v s c r val e hs (by rw [hsl]; omega) he
+    obtain ⟨f, hf⟩ := fgEdit_ok (getCell st.chains (c.toNat - '0'.toNat) (if e == 'C' then 1 else 0))
+      (if (if Gen.preserveElem.contains r then [e] else []) == ['C'] then [] else (if Gen.preserveElem.contains r then [e] else [])) r val hv hn
+    refine ⟨f, ?_, ?_⟩
+    · rw [key st hl]
+      unfold setFg
+      have : ¬ (c.toNat - '0'.toNat ≥ st.chains.length) := by rw [hl]; omega
+      simp only [this, if_false, hf, bindO, Bool.and_true]
+    · intro st' hl' hcell
+      rw [key st' hl']
+      unfold setFg
+      have : ¬ (c.toNat - '0'.toNat ≥ st'.chains.length) := by rw [hl']; omega
+      simp only [this, if_false, hcell, hf, bindO, Bool.and_true]
+  let st0 : RState := ⟨initChains v, [], true⟩
+  obtain ⟨f1, h1, h1'⟩ := one st0 c1 r1 v1 e1 hlen hs1 hp1 he1 hv1 hn1
+  obtain ⟨f2, h2, h2'⟩ := one st0 c2 r2 v2 e2 hlen hs2 hp2 he2 hv2 hn2
+  have hne' : c2.toNat - '0'.toNat ≠ c1.toNat - '0'.toNat := fun e => hne e.symm
+  -- second token after the first: its own cell is untouched by the first
+  have s12 := h2' { st0 with chains := setCell st0.chains (c1.toNat - '0'.toNat) (if e1 == 'C' then 1 else 0) f1 }
+    (by simp [setCell_length, st0, hlen]) (getCell_setCell_ne _ _ _ _ _ _ hne)
+  have s21 := h1' { st0 with chains := setCell st0.chains (c2.toNat - '0'.toNat) (if e2 == 'C' then 1 else 0) f2 }
+    (by simp [setCell_length, st0, hlen]) (getCell_setCell_ne _ _ _ _ _ _ hne')
+  show bindO (bindO (.ok st0) (fun st => reactToken v st (c1 :: r1))) (fun st => reactToken v st (c2 :: r2)) =
+       bindO (bindO (.ok st0) (fun st => reactToken v st (c2 :: r2))) (fun st => reactToken v st (c1 :: r1))
+  simp only [bindO, h1, h2, s12, s21]
+  rw [setCell_comm _ _ _ _ _ _ _ hne]
+
+open Gly.React in
 /-- The side conditions hold – by kernel evaluation over the complete regenerated table and all nine digits – for these
     group names (in particular S, P, Ac, Me, Bz, Bn, the halides, azide, the fatty acyl names …): the theorem above applies
     to every one of them on every sugar. -/
